@@ -5,9 +5,15 @@
   `String_Hash` = `hash_data` of src/Hash.c.  `CelloGen.Cmp.eq`, `CelloGen.Cmp.intCmp` and the constants of `hashData` are
   regenerated from the source on every run (generators Cmp, Hash), so a change of `Int_Cmp`/`eq`/`hash_data` that breaks
   "eq is equality of the value" breaks the proofs below.
+
+  `String_Cmp` is a call of libc's `strcmp`: there is nothing to translate, the model of it is `Cello.Cmp.bytesCmp` (first
+  differing byte as unsigned char; a proper prefix is smaller).  That `String_Cmp` IS that call is an assumption of the String
+  instance, stated as `StringCmpIsStrcmp` over the texts generator Table reads from src/String.c on every run: a `String_Cmp`
+  that compares anything else (a prefix, a folded case, 7 bits, the hash) no longer meets it.
 -/
 import Cello.Cmp
 import CelloGen.Cmp
+import CelloGen.Table
 import CelloProofs.Lemmas.Cmp
 import Cello.Hash
 import CelloProofs.Lemmas.HashVal
@@ -26,6 +32,22 @@ def intKeyEq : DecidableEq (BitVec 64) := fun a b => decidable_of_iff _ (int_eq_
 
 /-- `Int_Hash`: `(uint64_t)c_int(self)` -/
 def intKeyHash (k : BitVec 64) : Nat := k.toNat
+
+/-- the texts the String key instance is written against: `String_Cmp` is `strcmp` on the two character buffers -/
+def stringCmpModelled : String := "return strcmp(String_C_Str(self), c_str(obj));"
+def stringCStrModelled : String := "struct String* s = self; return s->val;"
+def cStrModelled : String := "if (type_of(self) is String) { return ((struct String*)self)->val; } return method(self, C_Str, c_str);"
+
+/-- **the assumption of the String instance, about the source as it is now**: `eq` on two String keys runs
+    `strcmp(self->val, obj->val)` — the body of `String_Cmp` (String's registered Cmp instance) and of the two accessors it reads
+    its operands through are the texts `bytesCmp` models -/
+def StringCmpIsStrcmp : Prop :=
+  CelloGen.Table.stringCmpText = stringCmpModelled ∧ CelloGen.Table.stringCStrText = stringCStrModelled ∧
+  CelloGen.Table.cStrText = cStrModelled
+
+/-- a key test weaker than `strcmp`: `memcmp` over the shorter of the two lengths, the tie-break on the length forgotten -/
+def prefixCmp (a b : List UInt8) : Int :=
+  Cello.Cmp.bytesCmp (a.take (min a.length b.length)) (b.take (min a.length b.length))
 
 /-- **String keys: `eq` (`strcmp(a, b) is 0`) is equality of the byte strings** -/
 theorem string_eq_iff (a b : List UInt8) : CelloGen.Cmp.eq Cello.Cmp.bytesCmp a b = true ↔ a = b := by
